@@ -3,6 +3,7 @@
 from ..r_query import rule_eq_ladders, rule_primitive_plumbing, rule_constructor_kwargs, rule_constraint_normalisers
 from ..r_rings import rule_ring_marks
 from ..r_readers import rule_raise_family, rule_implicit_raises, rule_tokenizer_fsm, DAYLIGHT
+from ..r_hygiene import rule_hygiene as _rule_hygiene
 
 LEVEL = 'other'
 
@@ -23,3 +24,4 @@ def run(ck, repo):
                       {('_convert', 'create_molecule', 'AtomNotFound'): 'not on the smarts() path'})
     rule_implicit_raises(ck, repo, 'C08.D3-implicit-raises', ValueError)
     rule_tokenizer_fsm(ck, repo, 'C08.D3-fsm')
+    _rule_hygiene(ck, repo, 'C08.H-dataflow-hygiene', 'C08')
